@@ -16,6 +16,12 @@ def classify(sig, what):
         return 'L8: zero-valued constraints (maximum: 0, minimum: 0, minLength: 0, maxLength: 0) are not emitted in the doc comments (the templates test {{ if .Maximum }}), so the scanned schema loses them (' + kw + ' at ' + site + ').'
     if kw.startswith('multipleOf') and site == 'property':
         return 'L6: "Multiple Of:" doc comments of properties are emitted but read back by the scanner only for some types; multipleOf is lost at ' + site + '.'
+    if kw.startswith('minProperties') or kw.startswith('maxProperties'):
+        return 'L9: minProperties / maxProperties have no doc-comment annotation at all: the generated models enforce them in Validate only and the scanned schema loses them (' + kw + ' at ' + site + ').'
+    if site == 'property' and (kw.startswith('properties (only right)') or kw.startswith('required (only right)')):
+        return 'L3: a property whose schema is an inline allOf is generated as an anonymous struct; the scanner reads it back as a plain object with merged properties: the allOf structure is lost.'
+    if kw.startswith('readOnly (only left)'):
+        return 'L10: readOnly on a property of object type is generated as a field of a named struct type; the scanner renders the field as a bare $ref (siblings of $ref are not emitted), so the read-only flag is lost.'
     if site != 'property':
         return 'L1/L2: validation keywords outside struct fields - on a named primitive/array/map definition (definition-root), on array items or on map values - are only enforced in generated Validate code and are not emitted as scanner-readable annotations, so the scanned schema loses ' + kw + ' at ' + site + '.'
     return None
